@@ -1602,6 +1602,11 @@ impl Archive {
     /// A table entry is untrusted input: the bytes it claims to occupy must lie inside the
     /// archive file. Checked before any buffer is sized from the entry.
     fn check_stored_extent(&self, file_info: &FileInfo, name: &str) -> Result<()> {
+        // Nothing is read for an empty entry; writers may place it at (or, after alignment,
+        // beyond) the current end of the archive
+        if file_info.compressed_size == 0 {
+            return Ok(());
+        }
         let archive_len = self.reader.get_ref().metadata()?.len();
         match file_info.file_pos.checked_add(file_info.compressed_size) {
             Some(end) if end <= archive_len => Ok(()),
